@@ -28,7 +28,7 @@ ASSUMPTIONS = [
     "scope: 1-D axis alphabet offsets {0,0.1,-0.3,1/3,7.7,-123.456,1e4+0.1} x widths {1,0.1,0.3,1/3,0.7,2.5} x counts "
     "{1,2,3,5,7,10(,13)} x scales 1e-12..1e6 x both corner orders; n-D: products of a reduced list of 4 (quick) / 8 "
     "(thorough) axes, anisotropy up to 1e3, overall scales {1,1e-9(,1e6)}, 3 naming schemes, 2 corner orders "
-    "(4-D: naming and corner order derived from the axis choice, scale 1)",
+    "(4-D: naming and corner order derived from the axis choice; quick: scale 1 only)",
     "reference = exact rational lattice from the mesh's float corners; a float coordinate is accepted within "
     "8 ulp(M), M = largest corner magnitude of that axis",
     "a probe within tau(p)+8ulp(M) of a face (tau = tolerance_factor*(min(edges)+|p|), the region's own containment "
@@ -398,7 +398,7 @@ def _nd(ctx, ndim):
         swap = ctx.choose("swap", ["none", "alternate"])
     else:
         code = sum(RAXES.index(a) * (k + 1) for k, a in enumerate(axes))
-        scale = 1.0
+        scale = ctx.choose("scale", [1.0] if ctx.tier == "quick" else ND_SCALES[ctx.tier])
         dims = C.DIMSETS[ndim][code % 3]
         swap = "alternate" if (code // 3) % 2 else "none"
     lo, hi, n = [], [], []
